@@ -348,7 +348,7 @@ def _alt_lean(confs, path_ok=None, examples=None):
         if ex and okp and okp[1] and okp[2]:
             pn = "%sPath_%s" % (n, ex["config"])
             L = gen_lean
-            lines.append("/-- `%s:%s` and its path `%s` under the generated configuration -/" % (ex["type"], ex["s"].replace("-/", "- /"), ex["path"].replace("-/", "- /")))
+            lines.append("/-- a leaf Sid of the generated configuration and its path (chosen by the driver: Spec.admissibleB holds) -/")
             lines.append("def %s_x : Sid := ⟨%s, %s, %s⟩" % (n, L.lstr(ex["s"]), L.lstr(ex["type"]), L.ldict(ex["fields"])))
             lines.append("def %s_p : Str := %s" % (n, L.lstr(ex["path"])))
             lines.append("theorem %s_c05_example : (Ctx.mk %sConf %sEnv).sidOfPath %s_p (some %s) = .ok %s_x :=" % (n, n, n, n, L.lstr(ex["config"]), n))
